@@ -62,4 +62,11 @@ TEXT = {
         "design_ref": "DESIGN.md section 2, C08",
         "level_note": "Trusted base: hlref flattened-file parser, hlsim transfer client, x/text Mac-Roman table (shared with mobius). Sizes bounded at 8 MiB (thorough).",
     },
+    "C09": {
+        "engine": "E1 bubble world",
+        "technique": "property-based testing with generated fault sequences (connection cuts at generated byte offsets, then resume) against a byte-exact model of what the server consumed; round trip through the reference download client",
+        "level_text": "Generated cut scripts over the upload stream (including cuts inside the preamble and the flattened header, at 32 KiB copy-buffer boundaries and after the data fork) are followed by resumes from the server-reported offset; after every cut and at completion the on-disk state is compared with the exact model. Cut offsets are sampled, not enumerated.",
+        "design_ref": "DESIGN.md section 2, C09",
+        "level_note": "Trusted base: net.Pipe semantics (a Write returns only when consumed), hlsim transfer client, hlref. Fault model: client-side connection close at a byte offset; server crashes are C20.",
+    },
 }
